@@ -2145,4 +2145,4 @@ mod test {
 // verification hooks (glass_easel_verif): compiled only under the cfg guard
 #[cfg(any(kani, glass_easel_verif))]
 #[path = "/verif/hooks/tc_parse_expr.rs"]
-mod verif;
+pub mod verif;
